@@ -237,7 +237,8 @@ func (r *runner) run(ctx context.Context, isStream bool, input any, opts ...Opti
 		ctx, input = onGraphStart(ctx, input, isStream)
 		haveOnStart = true
 
-		nextTasks, result, err = r.calculateNextTasks(ctx, []*task{{
+		var isEnd bool
+		nextTasks, result, isEnd, err = r.calculateNextTasks(ctx, []*task{{
 			nodeKey: START,
 			call:    r.inputChannels,
 			output:  input,
@@ -245,7 +246,7 @@ func (r *runner) run(ctx context.Context, isStream bool, input any, opts ...Opti
 		if err != nil {
 			return nil, newGraphRunError(fmt.Errorf("calculate next tasks fail: %w", err))
 		}
-		if result != nil {
+		if isEnd {
 			return result, nil
 		}
 		if keys := getHitKey(nextTasks, r.interruptBeforeNodes); len(keys) > 0 {
@@ -326,11 +327,12 @@ func (r *runner) run(ctx context.Context, isStream bool, input any, opts ...Opti
 		}
 
 		var result any
-		nextTasks, result, err = r.calculateNextTasks(ctx, completedTasks, isStream, cm, optMap)
+		var isEnd bool
+		nextTasks, result, isEnd, err = r.calculateNextTasks(ctx, completedTasks, isStream, cm, optMap)
 		if err != nil {
 			return nil, newGraphRunError(fmt.Errorf("failed to calculate next tasks: %w", err))
 		}
-		if result != nil {
+		if isEnd {
 			return result, nil
 		}
 
@@ -362,12 +364,12 @@ func (r *runner) run(ctx context.Context, isStream bool, input any, opts ...Opti
 				)
 			}
 
-			newNextTasks, result, err := r.calculateNextTasks(ctx, newCompletedTasks, isStream, cm, optMap)
+			newNextTasks, result, isEnd, err := r.calculateNextTasks(ctx, newCompletedTasks, isStream, cm, optMap)
 			if err != nil {
 				return nil, newGraphRunError(fmt.Errorf("failed to calculate next tasks: %w", err))
 			}
 
-			if result != nil {
+			if isEnd {
 				return result, nil
 			}
 
@@ -561,29 +563,30 @@ func (r *runner) handleInterruptWithSubGraphAndRerunNodes(
 	return &interruptError{Info: intInfo}
 }
 
-func (r *runner) calculateNextTasks(ctx context.Context, completedTasks []*task, isStream bool, cm *channelManager, optMap map[string][]any) ([]*task, any, error) {
+func (r *runner) calculateNextTasks(ctx context.Context, completedTasks []*task, isStream bool, cm *channelManager, optMap map[string][]any) ([]*task, any, bool, error) {
 	writeChannelValues, controls, err := r.resolveCompletedTasks(ctx, completedTasks, isStream, cm)
 	if err != nil {
-		return nil, nil, err
+		return nil, nil, false, err
 	}
 	nodeMap, err := cm.updateAndGet(ctx, writeChannelValues, controls)
 	if err != nil {
-		return nil, nil, fmt.Errorf("failed to update and get channels: %w", err)
+		return nil, nil, false, fmt.Errorf("failed to update and get channels: %w", err)
 	}
 	var nextTasks []*task
 	if len(nodeMap) > 0 {
 		// Check if we've reached the END node.
+		// (the value that reaches END may be a nil interface value: it is reported by the flag, not by the value)
 		if v, ok := nodeMap[END]; ok {
-			return nil, v, nil
+			return nil, v, true, nil
 		}
 
 		// Create and submit the next batch of tasks.
 		nextTasks, err = r.createTasks(ctx, nodeMap, optMap)
 		if err != nil {
-			return nil, nil, fmt.Errorf("failed to create tasks: %w", err)
+			return nil, nil, false, fmt.Errorf("failed to create tasks: %w", err)
 		}
 	}
-	return nextTasks, nil, nil
+	return nextTasks, nil, false, nil
 }
 
 func (r *runner) createTasks(ctx context.Context, nodeMap map[string]any, optMap map[string][]any) ([]*task, error) {
